@@ -97,10 +97,10 @@ def make_aux(rng, x, xr):
     # the forcing may be stored in another dimension order than the spectra, or lack one of their dimensions
     # (a wind series shared by all sites, a static depth): xarray pairs by name / broadcasts
     u = rng.random()
-    if len(names) >= 2 and u < 0.2:
+    if len(names) >= 2 and u < 0.3:
         for k in ("wspd", "wdir", "dpt"):
             a[k] = a[k].transpose(*[names[i] for i in rng.permutation(len(names))])
-    elif len(names) >= 1 and u < 0.35:
+    elif len(names) >= 1 and u < 0.42:
         for k in (("wspd", "wdir") if rng.random() < 0.5 else ("dpt",)):
             d = names[int(rng.integers(len(names)))]
             a[k] = a[k].isel({d: 0}, drop=True)
